@@ -2,7 +2,7 @@
 deterministic scenarios through harness/ctl.py, oracles in harness/m1.py.  `_utils.eval_expr` and the `pre_dispatch` resolution:
 model lean/JoblibModel/EvalExpr.lean, correspondence streams and oracles in harness/evalexpr.py."""
 
-from .. import evalexpr, m1
+from .. import evalexpr, m1, native_pool
 
 REQUIRED_THEOREMS = [
     "C09.no_pull_after_abort",
@@ -31,6 +31,8 @@ REQUIRED_THEOREMS = [
     "C09.resolve_numbers",
     "C09.resolve_zero_negative_witnesses",
     "C09.resolve_text_witnesses",
+    "C09.reconf_same_cfg_is_old_model",
+    "C09.reconf_call_uses_its_own_cfg",
     "M1L.reachable_inv",
     "M1L.mutex",
     "M1L.lock_owner_iff",
@@ -60,9 +62,12 @@ FOCUSES = (None, 'fail')
 def run(ctx):
     if ctx.replay and str(ctx.replay.get("case", {}).get("kind", "")).startswith("evalexpr"):
         return evalexpr.replay(ctx)
+    if native_pool.is_replay(ctx):
+        return native_pool.replay(ctx, "C09")
     out = m1.run_prop(ctx, "C09", FOCUSES)
     if not ctx.replay:
         evalexpr.run_streams(ctx, out)
+        native_pool.probe(ctx, out, "C09")
     return out
 
 
